@@ -21,7 +21,7 @@ RULE = ('pairs of random circuits with equal shapes (1..4 outputs, 1..5 inputs):
 ANCHOR_FILES = ['cirbo/sat/miter.py', 'cirbo/synthesis/generation/generation.py', 'cirbo/core/circuit/circuit.py']
 ASSUMPTIONS = ['vt.refsem; the pysat stand-in (z3, self-checked) for the satisfiability verdict']
 REQUIRED = {'mon:build_miter.checked': 150, 'pair:equivalent': 40, 'pair:different': 40, 'single_output': 30,
-            'shape_mismatch_rejected': 10, 'sat_checked': 50, 'interference_before_miter': 10}
+            'shape_mismatch_rejected': 10, 'sat_checked': 50, 'interference_before_miter': 10, 'operand_with_blocks': 30}
 
 CUR = {'ctx': None, 'case': None}
 
@@ -196,6 +196,15 @@ def check_case(case, ctx):
         except Exception as e:
             ctx.count('build_failed:' + type(e).__name__)
             return
+    for side, c_, n_ in (('lblocks', lc, L), ('rblocks', rc, R)):
+        # operands that carry blocks of their own (user-made, any number of block outputs)
+        for bi, (gs, k_out) in enumerate(case.get(side) or []):
+            try:
+                with monitor.suspended():
+                    c_.make_block('ub%d' % bi, gs, gs[:k_out])
+                ctx.count('operand_with_blocks')
+            except Exception as e:
+                ctx.count('make_block_failed:' + type(e).__name__)
     kw = {}
     if case.get('names'):
         kw = {'left_name': case['names'][0], 'right_name': case['names'][1]}
@@ -240,11 +249,20 @@ def gen_case(rng, spec):
         except Exception:
             other = net.copy()
             variant = 'same'
+    blocks = {}
+    for side, n_ in (('lblocks', net), ('rblocks', other)):
+        inner = [l for l, (t, o) in n_.gates.items() if t != 'INPUT']
+        if inner and rng.random() < 0.3:
+            bl = []
+            for _ in range(rng.randint(1, 2)):
+                gs = rng.sample(inner, rng.randint(1, min(4, len(inner))))
+                bl.append([gs, rng.randint(1, len(gs))])
+            blocks[side] = bl
     names = None
     if rng.random() < 0.3:
         names = [rng.choice(['L', 'first', 'c_1']), rng.choice(['R', 'second', 'c_2'])]
     return {'kind': 'random', 'variant': variant, 'left': netgen.describe(net), 'right': netgen.describe(other),
-            'rseed': rng.getrandbits(32), 'names': names, 'interfere': rng.random() < 0.25}
+            'rseed': rng.getrandbits(32), 'names': names, 'interfere': rng.random() < 0.25, **blocks}
 
 
 def run_shard(spec, ctx):
